@@ -591,6 +591,7 @@ def get_finite_state_machine() -> _FiniteStateMachineNode:
     # ....................{ IMPORTS                        }....................
     # Defer function-specific imports.
     from beartype.typing import (
+        AbstractSet,
         AsyncGenerator,
         AsyncIterable,
         AsyncIterator,
@@ -728,7 +729,13 @@ def get_finite_state_machine() -> _FiniteStateMachineNode:
                             '__xor__',
                             'isdisjoint',
                         )): _FiniteStateMachineNode(
-                            hint_factory=set,
+                            # Note that this is intentionally the
+                            # "collections.abc.Set" protocol rather than the
+                            # builtin "set" type. Non-"set" classes satisfying
+                            # this protocol (e.g., "dict_items" views,
+                            # "collections.abc.Set" subclasses) are *NOT*
+                            # instances of the builtin "set" type.
+                            hint_factory=AbstractSet,
                             nodes_next={
                                 # "collections.abc.MutableSet" FSM.
                                 frozenset((
